@@ -528,15 +528,21 @@ impl<const N: usize> SlotManager<N> {
         // Firmware sanity checking
         let fw_in_progress = total_status(f_hdr) == TotalStatus::AppWriteInProgress;
         let fw_right_kind = f_hdr.kind == Kind::Firmware;
-        self.is_reasonably_sized::<T>(f_hdr.segment_size.0, f_hdr.num_segments.0)?;
+        let fw_reasonable = self
+            .is_reasonably_sized::<T>(f_hdr.segment_size.0, f_hdr.num_segments.0)
+            .is_ok();
 
         // Parity sanity checking
         let pa_in_progress = total_status(p_hdr) == TotalStatus::AppWriteInProgress;
         let pa_right_kind = p_hdr.kind == Kind::Parity;
         let pa_right_segments = f_hdr.segment_size == p_hdr.segment_size;
 
-        let all_good =
-            fw_in_progress && fw_right_kind && pa_in_progress && pa_right_kind && pa_right_segments;
+        let all_good = fw_in_progress
+            && fw_right_kind
+            && fw_reasonable
+            && pa_in_progress
+            && pa_right_kind
+            && pa_right_segments;
 
         if !all_good {
             self.cancel_all_ext_pending(flash, &headers).await?;
